@@ -178,7 +178,9 @@ CLAIMED = {
                 "matching channel. They need atomic queue creation and locked append/popleft: both are generated facts read from in_memory.py with hard reflexivity obligations "
                 "(the creation race was repaired by a fix commit; C14_refuted_when keeps the losing schedule for the unrepaired variant). Closed under the global context. "
                 "Tie = trace validation: real thread schedules are enumerated up to a preemption bound with a deterministic sys.settrace baton scheduler, mapped to model events by "
-                "AST anchors, replayed in Coq and compared with the real delivered lists and leftovers.",
+                "AST anchors, replayed in Coq and compared with the real delivered lists and leftovers. Pattern routing: the theorems hold for every pattern of Model/Glob.v, an executable "
+                "shell-style matcher (star, question mark, bracket expressions with negation and ranges) proved to specialise to exact names and prefix-star patterns and compared with the "
+                "fnmatch function the transport imports on 1500+ generated (pattern, channel) pairs every run.",
         "note": "Model coq/Model/Transport.v; interleaving granularity = source line of in_memory.py plus the defaultdict factory call; preemption inside a single C call is assumed "
                 "not to occur; fnmatch modelled for exact and prefix-star patterns only; termination of a drain is not proved.",
         "technique": "Coq invariant proofs over all schedules + generated structural facts + trace validation of real schedules (deterministic scheduler)",
